@@ -52,9 +52,14 @@ def _old(run, n):
     saved = run.st
     run.st = run.old_state
     try:
-        return run.ev(n.args[0])
+        v = run.ev(n.args[0])
     finally:
         run.st = saved
+    # a value object created while evaluating in the old state (a dict returned by a pure function) is made
+    # visible in the current heap as well
+    if isinstance(v, Ref) and v.loc not in saved.heap and v.loc in run.old_state.heap:
+        saved.heap[v.loc] = run.old_state.heap[v.loc]
+    return v
 
 
 def _quant(run, n, sort, mk, q):
@@ -62,7 +67,7 @@ def _quant(run, n, sort, mk, q):
     if not isinstance(lam, ast.Lambda):
         raise Unsupported('quantifier needs a lambda')
     names = [a.arg for a in lam.args.args]
-    consts = [z3.Const('%s!q%d' % (nm, id(lam) % 100000), sort) for nm in names]
+    consts = [smt.bound(nm, sort) for nm in names]
     saved = run.frames[-1].env
     run.frames[-1].env = dict(saved)
     for nm, c in zip(names, consts):
@@ -232,7 +237,7 @@ def _val(run, d, a, col=None):
 def _same_vals(run, d1, d2):
     """d1 and d2 agree on every key of d1"""
     m1, m2 = _mapo(run, d1), _mapo(run, d2)
-    a = z3.Const('a!sv', Arm)
+    a = smt.bound('asv', Arm)
     conj = []
     for c in m1.cols:
         conj.append(m1.cols[c][a] == m2.cols[c][a])
@@ -385,7 +390,7 @@ def _argmax_over(run, n):
     """argmax_over(arms, lambda a: expr): first arm of `arms` attaining the maximum of expr"""
     s = _seq(run, run.ev(n.args[0]), 'A')
     lam = n.args[1]
-    a = z3.Const('a!amo%d' % (id(lam) % 100000), Arm)
+    a = smt.bound('aamo', Arm)
     saved = run.frames[-1].env
     run.frames[-1].env = dict(saved)
     run.frames[-1].env[lam.args.args[0].arg] = ArmV(a)
@@ -452,7 +457,7 @@ def _beta_state(run, s0, i, d_keys, succ, fail, size):
     """stream state after the beta draws of the first i keys of d_keys (one draw of `size` values per key)"""
     ks = _mapo(run, d_keys).keys
     sc, fc = _mapo(run, succ).cols[''], _mapo(run, fail).cols['']
-    j = z3.Int('j!it')
+    j = smt.bound('jit', Int)
     sz = intterm(size)
     arrs = [z3.Lambda([j], sc[T.aat(ks, j)]), z3.Lambda([j], fc[T.aat(ks, j)]), z3.Lambda([j], sz)]
     f = F('iterx_next_beta', smt.Rng, Int, *[a.sort() for a in arrs], smt.Rng)
@@ -468,7 +473,7 @@ def _draw_beta(run, s, a, b, n):
 def _same_elems(run, r, q):
     """two real sequences of equal length with equal elements"""
     r, q = _seq(run, r, 'R'), _seq(run, q, 'R')
-    j = z3.Int('j!se')
+    j = smt.bound('jse', Int)
     return BoolV(z3.And(T.rlen(r.term) == T.rlen(q.term),
                         z3.ForAll([j], z3.Implies(z3.And(0 <= j, j < T.rlen(r.term)),
                                                   T.rat(r.term, j) == T.rat(q.term, j)))))
@@ -479,7 +484,7 @@ def _msum_over(run, n):
     """msum_over(arms, lambda b: expr): sum of expr over the arms"""
     s = _seq(run, run.ev(n.args[0]), 'A')
     lam = n.args[1]
-    a = z3.Const('a!mso%d' % (id(lam) % 100000), Arm)
+    a = smt.bound('amso', Arm)
     saved = run.frames[-1].env
     run.frames[-1].env = dict(saved)
     run.frames[-1].env[lam.args.args[0].arg] = ArmV(a)
@@ -512,7 +517,7 @@ def _quantile(run, r, q):
 def _closest_distances(run, dft, sd):
     """[min(d.values()) for d in dft.values() if min(d.values()) != self_distance], as the loop builds it"""
     m = _mapo(run, dft)
-    j = z3.Int('j!it')
+    j = smt.bound('jit', Int)
     ks = m.cols['#keys'][T.aat(m.keys, j)]
     vs = m.cols['#vals'][T.aat(m.keys, j)]
     mn = LC.rmin(mvals(ks, vs))
